@@ -1574,6 +1574,9 @@ def name_return(text, name):
 
 
 LABEL_RX = re.compile(r'//\s*@label\s+([\w.\-]+)')
+# inline form, for clauses that a `sub` splices into the middle of a repository line (closure contracts): the label
+# names the clause that ends just before it
+INLINE_LABEL_RX = re.compile(r'/\*\s*#label\s+([\w.\-]+)\s*\*/')
 
 
 def labels_in(gen):
@@ -1583,4 +1586,7 @@ def labels_in(gen):
         m = LABEL_RX.search(ln)
         if m and k < len(gen['origins']):
             res.append((k + 1, m.group(1), gen['origins'][k]['ctx']))
+        if k < len(gen['origins']):
+            for m2 in INLINE_LABEL_RX.finditer(ln):
+                res.append((k + 1, m2.group(1), gen['origins'][k]['ctx']))
     return res
